@@ -13,7 +13,7 @@ Ev == T.events
 Bad(c) == IF verdict = "ok" THEN c \o "@" \o ToString(l) ELSE verdict
 DictOf(c) == IF c.dict = 0 THEN <<>> ELSE T.scenario.dicts[c.dict]
 RatEq(q, num, den) == q[1] * den = num * q[2]
-DictsIntact(e) == \A i \in DOMAIN e.dicts : \A k \in DOMAIN e.dicts[i].items : e.dicts[i].items[k].type = "function" /\ e.dicts[i].items[k].same
+DictsIntact(e) == \A i \in DOMAIN e.dicts : \A k \in DOMAIN e.dicts[i].items : e.dicts[i].items[k].type \in {"function", "UserFunction"} /\ e.dicts[i].items[k].same
 RecvOK(c, e) ==
     LET d == DictOf(c)  n == Len(c.rows) IN
     /\ DOMAIN e.recv = Needs(c.res)                                   \* exactly the declared names
